@@ -258,6 +258,42 @@ func (w *c11World) opAdd() {
 			e.Source = m.RouteSourceDiscovered
 		}
 	}
+	w.doAdd(e)
+}
+
+// opRound: an announcement round about the focus destination - most of the
+// routes the table holds for it are announced again, each with new delays
+// (links got slower or faster), in table order.
+func (w *c11World) opRound() {
+	c := w.c
+	if !w.focus.IsValid() {
+		w.focus = w.peers[c.Pick("focus", len(w.peers))]
+	}
+	slower := c.Bool("round.slower")
+	n := 0
+	for _, x := range w.tbl.VerifEntries() {
+		if x.DstIP != w.focus || x.Source == m.RouteSourcePeer || len(x.Path.Hops) < 2 || !c.Chance("round.this", 2, 3) {
+			continue
+		}
+		hops := append([]m.SwitchHop(nil), x.Path.Hops...)
+		for i := 0; i < len(hops)-1; i++ {
+			hops[i].Delay = c11Delay(c, "round.delay")
+			if slower && hops[i].Delay < 60000 {
+				hops[i].Delay += uint16(c.Int("round.slower.by", 5, 200))
+			}
+		}
+		w.doAdd(m.RoutingTableEntry{DstIP: x.DstIP, NextHop: x.NextHop, Source: x.Source, Stub: x.Stub,
+			Path: m.SwitchPath{Hops: hops}, Expires: time.Now().Add(time.Duration(c.Int("add.exp.min", 11, 600)) * time.Minute)})
+		n++
+	}
+	if n > 0 {
+		c.Class("announcement-round-about-one-destination")
+	}
+}
+
+// doAdd adds one route and checks what AddRoute reports against the table.
+func (w *c11World) doAdd(e m.RoutingTableEntry) {
+	c := w.c
 	before := w.tbl.VerifEntries()
 	added, err := w.tbl.AddRoute(e)
 	after := w.tbl.VerifEntries()
@@ -617,7 +653,10 @@ func c11Run(c *core.Case, maxOps int) {
 	for i := 0; i < n; i++ {
 		peersBefore := peerSnapshot()
 		var step string
-		switch c.Weighted("op", 0, 50, 8, 10, 8, 8, 6, 6) {
+		switch c.Weighted("op", 0, 50, 8, 10, 8, 8, 6, 6, 6) {
+		case 8:
+			w.opRound()
+			step = "add"
 		case 1:
 			w.opAdd()
 			step = "add"
